@@ -27,6 +27,12 @@ CLAIMED = {
              note="The OS is replaced by the script alphabet (deliver k / retryable errno / fatal errno / timeout / eof)."),
 }
 ALL = ["C%02d" % i for i in range(1, 21)]
+import glob
+for f in glob.glob(os.path.join(V, "notes", "C*.manifest.json")):
+    pid = os.path.basename(f).split(".")[0]
+    d = json.load(open(f))
+    if pid not in CLAIMED and all(k in d for k in ("tech", "text", "note")):
+        CLAIMED[pid] = d
 NA_REASON = {}
 def main():
     checks = []
